@@ -452,6 +452,10 @@ func ServerWithOptions(opts ...ServerOption) (*Association, error) {
 	select {
 	case err := <-assoc.handshakeCompletedCh:
 		if err != nil {
+			// The caller gets no association: stop its loops and timers
+			// instead of leaving it to complete a handshake nobody waits for.
+			assoc.Close() // nolint:errcheck,gosec
+
 			return nil, err
 		}
 
@@ -520,6 +524,10 @@ func createClientWithOptionsWithContext(ctx context.Context, opts ...ClientOptio
 		return nil, ctx.Err()
 	case err := <-assoc.handshakeCompletedCh:
 		if err != nil {
+			// The caller gets no association: stop its loops and timers
+			// instead of leaving it to complete a handshake nobody waits for.
+			assoc.Close() // nolint:errcheck,gosec
+
 			return nil, err
 		}
 
